@@ -14,6 +14,7 @@ import (
 	dbm "github.com/tendermint/tm-db"
 
 	bam "github.com/pokt-network/posmint/baseapp"
+	"github.com/pokt-network/posmint/store"
 	"github.com/pokt-network/posmint/store/rootmulti"
 	"github.com/pokt-network/posmint/store/types"
 )
@@ -29,6 +30,18 @@ type Cfg struct {
 	// SPAL: call SetPruning on the live store AFTER LoadVersion instead of before it (baseapp's
 	// SetPruning option runs before the stores are loaded, other callers configure a loaded store)
 	SPAL bool `json:"spal"`
+	// Strat: when set, the pruning options are NOT (KR, KE) but whatever the real
+	// store.NewPruningOptionsFromString makes of this strategy string (the empty string is a
+	// strategy string too, hence the pointer); KR / KE are then ignored.
+	Strat *string `json:"strat,omitempty"`
+}
+
+// Pruning returns the options the stores of this machine are configured with.
+func (c Cfg) Pruning() types.PruningOptions {
+	if c.Strat != nil {
+		return store.NewPruningOptionsFromString(*c.Strat)
+	}
+	return types.NewPruningOptions(c.KR, c.KE)
 }
 
 // WOp is one write of a block.
@@ -69,7 +82,7 @@ func catch(f func()) (perr string, crash *Crash) {
 func Open(db dbm.DB, cfg Cfg, ver int64) (h *Handle, errs string) {
 	ms := rootmulti.NewStore(db)
 	if !cfg.SPAL {
-		ms.SetPruning(types.NewPruningOptions(cfg.KR, cfg.KE))
+		ms.SetPruning(cfg.Pruning())
 	}
 	ms.SetLazyLoading(cfg.Lazy)
 	keys := map[string]types.StoreKey{}
@@ -98,7 +111,7 @@ func Open(db dbm.DB, cfg Cfg, ver int64) (h *Handle, errs string) {
 		return nil, "error: " + err.Error()
 	}
 	if cfg.SPAL {
-		if perr, _ := catch(func() { ms.SetPruning(types.NewPruningOptions(cfg.KR, cfg.KE)) }); perr != "" {
+		if perr, _ := catch(func() { ms.SetPruning(cfg.Pruning()) }); perr != "" {
 			return nil, perr
 		}
 	}
@@ -182,6 +195,28 @@ func (h *Handle) Apply(w WOp) string {
 		}
 	})
 	return perr
+}
+
+// LiveLoad calls LoadVersion(v) on the LIVE handle and reports the outcome together with the
+// handle's projected state before ("pre") and after the call.
+func (h *Handle) LiveLoad(v int64) M {
+	pre := h.State()
+	var err error
+	perr, _ := catch(func() { err = h.MS.LoadVersion(v) })
+	out := h.State()
+	out["pre"] = pre
+	switch {
+	case perr != "":
+		out["ok"] = false
+		out["err"] = perr
+		out["panic"] = true
+	case err != nil:
+		out["ok"] = false
+		out["err"] = "error: " + err.Error()
+	default:
+		out["ok"] = true
+	}
+	return out
 }
 
 // Commit runs the real Commit; a crashdb interruption comes back as crash != nil.
@@ -358,7 +393,7 @@ func Query(h *Handle, db dbm.DB, cfg Cfg, via, store, key string, height int64, 
 		switch via {
 		case "app":
 			app := bam.NewBaseApp("q", log.NewNopLogger(), db, nil)
-			app.Store().SetPruning(types.NewPruningOptions(cfg.KR, cfg.KE))
+			app.Store().SetPruning(cfg.Pruning())
 			var main *types.KVStoreKey
 			for _, n := range cfg.Stores {
 				k := types.NewKVStoreKey(n)
